@@ -1090,7 +1090,13 @@ class Engine:
             v = args[0]
             if not is_sym(v):
                 return [(path, round(v))]
-            raise Unsupported("round of symbolic")
+            if z3.is_int(v):
+                return [(path, v)]
+            f = z3.ToInt(v)
+            frac = v - z3.ToReal(f)
+            half = z3.RealVal("1/2")
+            # banker's rounding, as Python's round()
+            return [(path, z3.If(frac > half, f + 1, z3.If(frac < half, f, z3.If(f % 2 == 0, f, f + 1))))]
         name = getattr(fv, "__qualname__", getattr(fv, "__name__", repr(fv)))
         hook = self.hooks.get(name)
         if hook is not None:
